@@ -16,7 +16,7 @@ from hypothesis import strategies as st
 from . import gen
 
 COEF_CLASSES = [gen.MIXED_COEFS, gen.MIXED_COEFS, gen.MIXED_COEFS, gen.INT_COEFS, gen.SMALL_INT_COEFS,
-                gen.DYADIC_COEFS, gen.FLOAT_COEFS]
+                gen.DYADIC_COEFS, gen.FLOAT_COEFS, gen.TINY_COEFS, gen.HUGE_COEFS]
 
 _CACHE = {}
 
